@@ -7,6 +7,7 @@ import (
 	"github.com/drand/drand/v2/zzverif/engcbstore"
 	"github.com/drand/drand/v2/zzverif/engcodec"
 	"github.com/drand/drand/v2/zzverif/engcrash"
+	"github.com/drand/drand/v2/zzverif/engdkg"
 	"github.com/drand/drand/v2/zzverif/engdkgrun"
 	"github.com/drand/drand/v2/zzverif/enghttp"
 	"github.com/drand/drand/v2/zzverif/engnode"
@@ -32,6 +33,8 @@ func main() {
 		"stream":   engstream.Run,
 		"sync":     engsync.Run,
 		"dkgrun":   engdkgrun.Run,
+		"dkgsm":    engdkg.Run("dkgsm", "C08"),
+		"dkgsig":   engdkg.Run("dkgsig", "C09"),
 		"secrecy":  engsecrecy.Run,
 		"crash":    engcrash.Run,
 		"store":    engstore.RunStore,
